@@ -41,6 +41,10 @@ def has_call(term, *pats):
     return None
 
 
+def is_callee(x, *pats):
+    return isinstance(x, tuple) and len(x) == 4 and x[0] in ("call", "await") and isinstance(x[1], str) and any(names.is_(x[1], pt) for pt in pats)
+
+
 def closures_in(term):
     return [x for x in subterms(term) if isinstance(x, tuple) and x and x[0] == "closure" and len(x) == 3]
 
@@ -126,7 +130,7 @@ def run(chk):
 
     def arm_of(o):
         for t, labs, fn, w in o.conds:
-            if t == ("discr", ("param", 2)):
+            if flow.is_discr(t, ("param", 2)):
                 for i, v in enumerate(variants):
                     if flow.lab_holds(labs, str(i)) and not any(flow.lab_holds(labs, str(j)) for j in range(len(variants)) if j != i):
                         return v
@@ -179,8 +183,8 @@ def run(chk):
             site = "%s:%d" % (o.site[0].file, o.site[2])
             eq, flag = is_localhost_row(o)
             local = eq and flag
-            rp_supplied = any(t == ("discr", ("param", 3)) and flow.lab_holds(labs, "1") and not flow.lab_holds(labs, "0") for t, labs, fn, w in o.conds)
-            rp_term = ("field", ("field", ("param", 3), "as Some"), "0")
+            rp_supplied = any(flow.is_discr(t, ("param", 3)) and flow.lab_holds(labs, "1") and not flow.lab_holds(labs, "0") for t, labs, fn, w in o.conds)
+            rp_term = ("payload", ("param", 3))
             # R1
             if arm == "Web" and not local:
                 https = [t for t, labs, fn, w in o.conds if has_call(t, "str::eq_ignore_ascii_case", "PartialEq::eq") and has_call(t, "Url::scheme") and "https" in consts_of_term(p, t) and flow.lab_true(labs)]
@@ -193,7 +197,7 @@ def run(chk):
                 if h is None or not names.is_(h[1], "Url::domain"):
                     r2 = False
                     w2 = "origin host obtained through %s" % (h[1] if h else "?")
-                dom_ok = any(t[0] == "discr" and has_call(t, "Url::domain") and flow.lab_holds(labs, "0") for t, labs, fn, w in o.conds)
+                dom_ok = any(flow.asserts_ok(t, labs, lambda x: is_callee(x, "Url::domain")) for t, labs, fn, w in o.conds)
                 if not dom_ok:
                     r2 = False
                     w2 = "row at %s is not conditioned on Url::domain being Some" % site
@@ -230,7 +234,7 @@ def run(chk):
                         w4 = w4 or "suffix test %s carries separator evidence %s" % (flow.term_str(rel[0][0])[:120], sorted(map(str, ev)))
             # R6c
             if payload is not None:
-                okp = payload == rp_term or (arm == "Web" and payload[0] == "payload" and has_call(payload, "Url::domain")) or (arm != "Web" and isinstance(payload, tuple) and payload[0] == "field" and payload[2] == "host")
+                okp = payload == rp_term or (arm == "Web" and flow.is_payload_of(payload, lambda x: is_callee(x, "Url::domain"))) or (arm != "Web" and isinstance(payload, tuple) and payload[0] == "field" and payload[2] == "host")
                 if not okp:
                     r6 = False
                     w6 = "Ok payload %s is neither the rp_id argument nor the origin host" % flow.term_str(payload)
